@@ -28,24 +28,33 @@ Proof.
   now rewrite X.
 Qed.
 
-Lemma nstmt_block : forall cf b L d U E fs,
-  nstmt cf (SBlock b) L d U E fs =
-  match nlist cf b (S d) L U E fs with
-  | Some (cb, L', U', E', fs') =>
-      let ops := scope_end_ops L' d in Some ((cb ++ ops)%list, skipn (List.length ops) L', U', E', fs')
-  | None => None
-  end.
+Definition nl_fix (cf : cfg) :=
+  fix go (l : list stmt) (dd : nat) (L : list local) (U : ups_t) (E : list lev) (fs : list func)
+         (pos : nat) (lc : option lctx) {struct l} : option nres :=
+    match l with
+    | [] => Some ([], L, U, E, fs)
+    | a :: r => match nstmt cf a L dd U E fs pos lc with
+                | Some (ca, L1, U1, E1, fs1) =>
+                    match go r dd L1 U1 E1 fs1 (pos + code_size ca) lc with
+                    | Some (cr, L2, U2, E2, fs2) => Some ((ca ++ cr)%list, L2, U2, E2, fs2)
+                    | None => None
+                    end
+                | None => None
+                end
+    end.
+
+Lemma nl_eq : forall cf l dd L U E fs pos lc, nl_fix cf l dd L U E fs pos lc = nlist cf l dd L U E fs pos lc.
 Proof.
-  intros cf b L d U E fs. cbn [nstmt].
-  match goal with |- match ?g b (S d) L U E fs with _ => _ end = _ =>
-    assert (X : forall l dd L1 U1 E1 fs1, g l dd L1 U1 E1 fs1 = nlist cf l dd L1 U1 E1 fs1) end.
-  { induction l as [|a r IH]; intros dd L1 U1 E1 fs1; [reflexivity|]. cbn [nlist].
-    destruct (nstmt cf a L1 dd U1 E1 fs1) as [[[[[ca L2] U2] E2] fs2]|]; [|reflexivity]. now rewrite IH. }
-  now rewrite X.
+  intros cf. induction l as [|a r IH]; intros dd L U E fs pos lc; [reflexivity|]. cbn [nl_fix nlist].
+  destruct (nstmt cf a L dd U E fs pos lc) as [[[[[ca L2] U2] E2] fs2]|]; [|reflexivity]. fold (nl_fix cf). now rewrite IH.
 Qed.
 
-Lemma nstmt_fun : forall cf f ps b L d U E fs,
-  nstmt cf (SFun f ps b) L d U E fs =
+Lemma nstmt_block : forall cf b L d U E fs pos lc,
+  nstmt cf (SBlock b) L d U E fs pos lc = nblk cf b d L U E fs pos lc.
+Proof. intros. cbn [nstmt]. fold (nl_fix cf). unfold nblk. now rewrite nl_eq. Qed.
+
+Lemma nstmt_fun : forall cf f ps b L d U E fs pos lc,
+  nstmt cf (SFun f ps b) L d U E fs pos lc =
   if d =? 0 then
     match nfunc cf ps b L U E fs with
     | Some (ci, L', U', E', fs') => Some ([ci; IDefineGlobal f], L', U', E', fs')
@@ -59,30 +68,14 @@ Lemma nstmt_fun : forall cf f ps b L d U E fs,
     | None => None
     end.
 Proof.
-  intros cf f ps b L d U E fs. cbn [nstmt]. unfold nfunc.
-  assert (X : forall l dd L1 U1 E1 fs1,
-    (fix go (l : list stmt) (dd : nat) (L : list local) (U : ups_t) (E : list lev) (fs : list func) {struct l} : option nres :=
-       match l with
-       | [] => Some ([], L, U, E, fs)
-       | a :: r => match nstmt cf a L dd U E fs with
-                   | Some (ca, L1, U1, E1, fs1) =>
-                       match go r dd L1 U1 E1 fs1 with
-                       | Some (cr, L2, U2, E2, fs2) => Some ((ca ++ cr)%list, L2, U2, E2, fs2)
-                       | None => None
-                       end
-                   | None => None
-                   end
-       end) l dd L1 U1 E1 fs1 = nlist cf l dd L1 U1 E1 fs1).
-  { induction l as [|a r IH]; intros dd L1 U1 E1 fs1; [reflexivity|]. cbn [nlist].
-    destruct (nstmt cf a L1 dd U1 E1 fs1) as [[[[[ca L2] U2] E2] fs2]|]; [|reflexivity]. now rewrite IH. }
-  destruct (d =? 0).
-  - destruct (bparams cf ps _); [|reflexivity]. now rewrite X.
+  intros. cbn [nstmt]. fold (nl_fix cf). unfold nfunc. destruct (d =? 0).
+  - destruct (bparams cf ps _); [|reflexivity]. now rewrite nl_eq.
   - destruct (dup_in_scope L f d); [reflexivity|]. destruct (List.length L =? c_locals_max cf); [reflexivity|].
-    destruct (bparams cf ps _); [|reflexivity]. now rewrite X.
+    destruct (bparams cf ps _); [|reflexivity]. now rewrite nl_eq.
 Qed.
 
-Lemma nstmt_lam : forall cf x ps b L d U E fs,
-  nstmt cf (SLam x ps b) L d U E fs =
+Lemma nstmt_lam : forall cf x ps b L d U E fs pos lc,
+  nstmt cf (SLam x ps b) L d U E fs pos lc =
   if d =? 0 then
     match nfunc cf ps b L U E fs with
     | Some (ci, L', U', E', fs') => Some ([ci; IDefineGlobal x], L', U', E', fs')
@@ -96,50 +89,98 @@ Lemma nstmt_lam : forall cf x ps b L d U E fs,
     | _ => None
     end.
 Proof.
-  intros cf x ps b L d U E fs. cbn [nstmt]. unfold nfunc.
-  assert (X : forall l dd L1 U1 E1 fs1,
-    (fix go (l : list stmt) (dd : nat) (L : list local) (U : ups_t) (E : list lev) (fs : list func) {struct l} : option nres :=
-       match l with
-       | [] => Some ([], L, U, E, fs)
-       | a :: r => match nstmt cf a L dd U E fs with
-                   | Some (ca, L1, U1, E1, fs1) =>
-                       match go r dd L1 U1 E1 fs1 with
-                       | Some (cr, L2, U2, E2, fs2) => Some ((ca ++ cr)%list, L2, U2, E2, fs2)
-                       | None => None
-                       end
-                   | None => None
-                   end
-       end) l dd L1 U1 E1 fs1 = nlist cf l dd L1 U1 E1 fs1).
-  { induction l as [|a r IH]; intros dd L1 U1 E1 fs1; [reflexivity|]. cbn [nlist].
-    destruct (nstmt cf a L1 dd U1 E1 fs1) as [[[[[ca L2] U2] E2] fs2]|]; [|reflexivity]. now rewrite IH. }
-  destruct (d =? 0).
-  - destruct (bparams cf ps _); [|reflexivity]. now rewrite X.
+  intros. cbn [nstmt]. fold (nl_fix cf). unfold nfunc. destruct (d =? 0).
+  - destruct (bparams cf ps _); [|reflexivity]. now rewrite nl_eq.
   - destruct (dup_in_scope L x d); [reflexivity|]. destruct (List.length L =? c_locals_max cf); [reflexivity|].
-    destruct (bparams cf ps _); [|reflexivity]. now rewrite X.
+    destruct (bparams cf ps _); [|reflexivity]. now rewrite nl_eq.
+Qed.
+
+Lemma nstmt_loop : forall cf i n b L d U E fs pos lc,
+  nstmt cf (SLoop i n b) L d U E fs pos lc =
+  if dup_in_scope L i (S d) then None
+  else if List.length L =? c_locals_max cf then None
+  else if S (List.length L) =? c_locals_max cf then None
+  else
+    let lv := List.length L in
+    let Lh := mkLocal None (Some (S d)) false :: mkLocal (Some i) (Some (S d)) false :: L in
+    let start := pos + code_size (loop_pre n) in
+    let posb := start + code_size (loop_head lv 0) in
+    match nblk cf b (S d) Lh U E fs posb (Some (mkLctx start (S d) 0)) with
+    | Some (c0, _, _, _, _) =>
+        let szb := code_size c0 in
+        match nblk cf b (S d) Lh U E fs posb (Some (mkLctx start (S d) (posb + szb + 3 + 1))) with
+        | Some (cblock, L1, U', E', fs') =>
+            let ops := scope_end_ops L1 d in
+            Some ((loop_pre n ++ loop_head lv (1 + szb + 3) ++ cblock
+                   ++ [ILoop (code_size (loop_head lv 0) + szb + 3); IPop] ++ ops)%list,
+                  skipn (List.length ops) L1, U', E', fs')
+        | None => None
+        end
+    | None => None
+    end.
+Proof.
+  intros. cbn [nstmt]. fold (nl_fix cf). unfold nblk.
+  destruct (dup_in_scope L i (S d)); [reflexivity|]. destruct (List.length L =? c_locals_max cf); [reflexivity|].
+  destruct (S (List.length L) =? c_locals_max cf); [reflexivity|]. cbv zeta. now rewrite !nl_eq.
+Qed.
+
+Lemma nstmt_if : forall cf a c t e L d U E fs pos lc,
+  nstmt cf (SIf a c t e) L d U E fs pos lc =
+  match nexpr cf L a U E with
+  | Some (ca, U1, E1) =>
+      match nexpr cf L c U1 E1 with
+      | Some (cc, U2, E2) =>
+          let post := pos + code_size ca + code_size cc + code_size [ILess; IJumpIfFalse 0; IPop] in
+          match nblk cf t d L U2 E2 fs post lc with
+          | Some (ct, L1, U3, E3, fs1) =>
+              let pose := post + code_size ct + code_size [IJump 0; IPop] in
+              match nblk cf e d L1 U3 E3 fs1 pose lc with
+              | Some (cel, L2, U4, E4, fs2) =>
+                  Some ((ca ++ cc ++ [ILess; IJumpIfFalse (1 + code_size ct + 3); IPop] ++ ct
+                         ++ [IJump (1 + code_size cel); IPop] ++ cel)%list, L2, U4, E4, fs2)
+              | None => None
+              end
+          | None => None
+          end
+      | None => None
+      end
+  | None => None
+  end.
+Proof.
+  intros. cbn [nstmt]. fold (nl_fix cf). unfold nblk.
+  destruct (nexpr cf L a U E) as [[[ca U1] E1]|]; [|reflexivity].
+  destruct (nexpr cf L c U1 E1) as [[[cc U2] E2]|]; [|reflexivity]. cbv zeta. now rewrite !nl_eq.
 Qed.
 
 (* ------------------------------------------------------------------------------------------ *)
 (* the fragment without side conditions, and its nested induction principle *)
 
-Fixpoint stmt5u (s : stmt) : bool :=
+Fixpoint stmt6u (s : stmt) : bool :=
   match s with
   | SDecl _ e | SAssign _ e | SPrint e | SExpr e | SReturn e => expr2 e
-  | SBlock b => forallb stmt5u b
-  | SFun _ _ b | SLam _ _ b => forallb stmt5u b
+  | SBlock b => forallb stmt6u b
+  | SFun _ _ b | SLam _ _ b => forallb stmt6u b
+  | SLoop _ _ b => forallb stmt6u b
+  | SIf a c t e => expr2 a && expr2 c && forallb stmt6u t && forallb stmt6u e
+  | SBreak | SContinue => true
   | _ => false
   end.
 
-Lemma stmt5u_ind : forall P : stmt -> Prop,
+Lemma stmt6u_ind : forall P : stmt -> Prop,
   (forall x e, expr2 e = true -> P (SDecl x e)) -> (forall x e, expr2 e = true -> P (SAssign x e)) ->
   (forall e, expr2 e = true -> P (SPrint e)) -> (forall e, expr2 e = true -> P (SExpr e)) ->
   (forall e, expr2 e = true -> P (SReturn e)) ->
-  (forall b, forallb stmt5u b = true -> Forall P b -> P (SBlock b)) ->
-  (forall f ps b, forallb stmt5u b = true -> Forall P b -> P (SFun f ps b)) ->
-  (forall x ps b, forallb stmt5u b = true -> Forall P b -> P (SLam x ps b)) ->
-  forall s, stmt5u s = true -> P s.
+  (forall b, forallb stmt6u b = true -> Forall P b -> P (SBlock b)) ->
+  (forall f ps b, forallb stmt6u b = true -> Forall P b -> P (SFun f ps b)) ->
+  (forall x ps b, forallb stmt6u b = true -> Forall P b -> P (SLam x ps b)) ->
+  (forall i n b, forallb stmt6u b = true -> Forall P b -> P (SLoop i n b)) ->
+  (forall a c t e, expr2 a = true -> expr2 c = true -> forallb stmt6u t = true -> forallb stmt6u e = true ->
+                   Forall P t -> Forall P e -> P (SIf a c t e)) ->
+  P SBreak -> P SContinue ->
+  forall s, stmt6u s = true -> P s.
 Proof.
-  intros P Hd Ha Hp He Hr Hb Hf Hl. fix IH 1. intros s H.
-  assert (G : forall l, forallb stmt5u l = true -> Forall P l).
+  intros P Hd Ha Hp He Hr Hb Hf Hl Hlo Hi Hbr Hco. fix IH 1. intros s H.
+  assert (G : forall l, forallb stmt6u l = true -> Forall P l).
   { fix go 1. intros l H0. destruct l as [|a r]; [constructor|]. cbn in H0. apply andb_prop in H0. destruct H0 as [H1 H2].
     constructor; [apply IH; exact H1|apply go; exact H2]. }
   destruct s; cbn in H; try discriminate.
@@ -150,26 +191,52 @@ Proof.
   - apply Hb; [exact H|apply G; exact H].
   - apply Hf; [exact H|apply G; exact H].
   - apply Hl; [exact H|apply G; exact H].
+  - apply Hlo; [exact H|apply G; exact H].
+  - apply andb_prop in H. destruct H as [H H4]. apply andb_prop in H. destruct H as [H H3]. apply andb_prop in H. destruct H as [H1 H2].
+    apply Hi; auto.
+  - exact Hbr.
+  - exact Hco.
   - apply Hr; exact H.
 Qed.
 
-Lemma stmt5_stmt5u : forall s i t, stmt5 i t s = true -> stmt5u s = true.
+Lemma stmt6_stmt6u : forall s j i t l, stmt6 j i t l s = true -> stmt6u s = true.
 Proof.
-  fix IH 1. intros s i t H.
-  assert (G : forall l i0 t0, forallb (stmt5 i0 t0) l = true -> forallb stmt5u l = true).
-  { fix go 1. intros l i0 t0 H0. destruct l as [|a r]; [reflexivity|]. cbn in H0 |- *. apply andb_prop in H0. destruct H0 as [H1 H2].
-    rewrite (IH _ _ _ H1). exact (go _ _ _ H2). }
-  destruct s; cbn in H |- *; try discriminate; try exact H.
-  - exact (G _ _ _ H).
-  - exact (G _ _ _ H).
-  - apply andb_prop in H. destruct H as [H1 _]. exact (G _ _ _ H1).
+  fix IH 1. intros s j i t l H.
+  assert (G : forall ls j0 i0 t0 l0, forallb (stmt6 j0 i0 t0 l0) ls = true -> forallb stmt6u ls = true).
+  { fix go 1. intros ls j0 i0 t0 l0 H0. destruct ls as [|a r]; [reflexivity|]. cbn in H0 |- *. apply andb_prop in H0. destruct H0 as [H1 H2].
+    rewrite (IH _ _ _ _ _ H1). exact (go _ _ _ _ _ H2). }
+  destruct s; cbn in H |- *; try discriminate; try exact H; try reflexivity.
+  - exact (G _ _ _ _ _ H).
+  - exact (G _ _ _ _ _ H).
+  - apply andb_prop in H. destruct H as [H1 _]. exact (G _ _ _ _ _ H1).
+  - exact (G _ _ _ _ _ H).
+  - apply andb_prop in H. destruct H as [H H4]. apply andb_prop in H. destruct H as [H H3]. apply andb_prop in H. destruct H as [H1 H2].
+    rewrite H1, H2, (G _ _ _ _ _ H3), (G _ _ _ _ _ H4). reflexivity.
   - apply andb_prop in H. destruct H as [_ H2]. exact H2.
 Qed.
 
-Lemma forallb_stmt5_stmt5u : forall l i t, forallb (stmt5 i t) l = true -> forallb stmt5u l = true.
+Lemma forallb_stmt6_stmt6u : forall ls j i t l, forallb (stmt6 j i t l) ls = true -> forallb stmt6u ls = true.
 Proof.
-  induction l as [|a r IH]; intros i t H; [reflexivity|]. cbn in H |- *. apply andb_prop in H. destruct H as [H1 H2].
-  now rewrite (stmt5_stmt5u _ _ _ H1), (IH _ _ H2).
+  induction ls as [|a r IH]; intros j i t l H; [reflexivity|]. cbn in H |- *. apply andb_prop in H. destruct H as [H1 H2].
+  now rewrite (stmt6_stmt6u _ _ _ _ _ H1), (IH _ _ _ _ H2).
+Qed.
+
+Lemma stmt5_stmt6 : forall s j i t l, stmt5 i t s = true -> stmt6 j i t l s = true.
+Proof.
+  fix IH 1. intros s j i t l H.
+  assert (G : forall ls j0 i0 t0 l0, forallb (stmt5 i0 t0) ls = true -> forallb (stmt6 j0 i0 t0 l0) ls = true).
+  { fix go 1. intros ls j0 i0 t0 l0 H0. destruct ls as [|a r]; [reflexivity|]. cbn in H0 |- *. apply andb_prop in H0. destruct H0 as [H1 H2].
+    rewrite (IH _ _ _ _ _ H1). exact (go _ _ _ _ _ H2). }
+  destruct s; cbn in H |- *; try discriminate; try exact H.
+  - exact (G _ _ _ _ _ H).
+  - exact (G _ _ _ _ _ H).
+  - apply andb_prop in H. destruct H as [H1 H2]. rewrite (G _ _ _ _ _ H1). exact H2.
+Qed.
+
+Lemma forallb_stmt5_stmt6 : forall ls j i t l, forallb (stmt5 i t) ls = true -> forallb (stmt6 j i t l) ls = true.
+Proof.
+  induction ls as [|a r IH]; intros j i t l H; [reflexivity|]. cbn in H |- *. apply andb_prop in H. destruct H as [H1 H2].
+  now rewrite (stmt5_stmt6 _ j _ _ l H1), (IH _ _ _ _ H2).
 Qed.
 
 (* ------------------------------------------------------------------------------------------ *)
@@ -313,22 +380,22 @@ Lemma fgrow_refl : forall fs, fgrow fs fs. Proof. intros fs. exists []. now rewr
 Lemma fgrow_trans : forall a b c, fgrow a b -> fgrow b c -> fgrow a c.
 Proof. intros a b c [e1 ->] [e2 ->]. exists (e1 ++ e2)%list. now rewrite app_assoc. Qed.
 
-Definition nstmt_okP (cf : cfg) (s : stmt) : Prop := forall L d U E fs code L' U' E' fs',
-  nstmt cf s L d U E fs = Some (code, L', U', E', fs') -> depth_le d L ->
+Definition nstmt_okP (cf : cfg) (s : stmt) : Prop := forall L d U E fs pos lc code L' U' E' fs',
+  nstmt cf s L d U E fs pos lc = Some (code, L', U', E', fs') -> depth_le d L ->
   step_ok U E U' E' /\ fgrow fs fs' /\ lext d L L'.
 
-Definition nlist_okP (cf : cfg) (b : list stmt) : Prop := forall L d U E fs code L' U' E' fs',
-  nlist cf b d L U E fs = Some (code, L', U', E', fs') -> depth_le d L ->
+Definition nlist_okP (cf : cfg) (b : list stmt) : Prop := forall L d U E fs pos lc code L' U' E' fs',
+  nlist cf b d L U E fs pos lc = Some (code, L', U', E', fs') -> depth_le d L ->
   step_ok U E U' E' /\ fgrow fs fs' /\ lext d L L'.
 
 Lemma nlist_ok_aux : forall cf b, Forall (nstmt_okP cf) b -> nlist_okP cf b.
 Proof.
-  intros cf b H. induction H as [|a r Ha Hr IH]; intros L d U E fs code L' U' E' fs' Hc Hd; cbn [nlist] in Hc.
+  intros cf b H. induction H as [|a r Ha Hr IH]; intros L d U E fs pos lc code L' U' E' fs' Hc Hd; cbn [nlist] in Hc.
   - inversion Hc; subst. split; [apply step_ok_refl|]. split; [apply fgrow_refl|apply lext_refl].
-  - destruct (nstmt cf a L d U E fs) as [[[[[ca L1] U1] E1] fs1]|] eqn:E1'; [|discriminate].
-    destruct (nlist cf r d L1 U1 E1 fs1) as [[[[[cr L2] U2] E2] fs2]|] eqn:E2'; [|discriminate]. inversion Hc; subst.
-    destruct (Ha _ _ _ _ _ _ _ _ _ _ E1' Hd) as (A1 & A2 & A3).
-    destruct (IH _ _ _ _ _ _ _ _ _ _ E2' (lext_depth_le _ _ _ Hd A3)) as (B1 & B2 & B3).
+  - destruct (nstmt cf a L d U E fs pos lc) as [[[[[ca L1] U1] E1] fs1]|] eqn:E1'; [|discriminate].
+    destruct (nlist cf r d L1 U1 E1 fs1 (pos + code_size ca) lc) as [[[[[cr L2] U2] E2] fs2]|] eqn:E2'; [|discriminate]. inversion Hc; subst.
+    destruct (Ha _ _ _ _ _ _ _ _ _ _ _ _ E1' Hd) as (A1 & A2 & A3).
+    destruct (IH _ _ _ _ _ _ _ _ _ _ _ _ E2' (lext_depth_le _ _ _ Hd A3)) as (B1 & B2 & B3).
     split; [eapply step_ok_trans; eauto|]. split; [eapply fgrow_trans; eauto|eapply lext_trans; eauto].
 Qed.
 
@@ -346,19 +413,53 @@ Lemma nfunc_ok_aux : forall cf ps b, nlist_okP cf b -> forall L1 U E fs ci L1' U
 Proof.
   intros cf ps b Hb L1 U E fs ci L1' U' E' fs' H. unfold nfunc in H.
   destruct (bparams cf ps _) as [Lp|] eqn:Ep; [|discriminate].
-  destruct (nlist cf b 1 Lp [] (mkLev L1 U :: E) fs) as [[[[[cb Lb'] Ub] Eo] fs1]|] eqn:El; [|discriminate].
+  destruct (nlist cf b 1 Lp [] (mkLev L1 U :: E) fs 0 None) as [[[[[cb Lb'] Ub] Eo] fs1]|] eqn:El; [|discriminate].
   cbn [nclose] in H. destruct Eo as [|lv E0]; [discriminate|]. inversion H; subst.
-  destruct (Hb _ _ _ _ _ _ _ _ _ _ El (proj1 (bparams_depth _ _ _ Ep))) as ((_ & F) & G & _).
+  destruct (Hb _ _ _ _ _ _ _ _ _ _ _ _ El (proj1 (bparams_depth _ _ _ Ep))) as ((_ & F) & G & _).
   inversion F as [|? ? ? ? [F1 [ext F2]] F3]; subst. cbn in F1, F2.
   split; [split; [eauto|exact F3]|]. split; [|exact F1].
   destruct G as [e ->]. exists (e ++ [mkFunc (cb ++ [INil; IReturn]) (List.length ps) (List.length Ub)])%list. now rewrite app_assoc.
 Qed.
 
-Lemma nstmt_ok : forall cf s, stmt5u s = true -> nstmt_okP cf s.
+(* { b } : the locals come back with (possibly) raised flags *)
+Lemma nblk_ok_aux : forall cf b, nlist_okP cf b -> forall L d U E fs pos lc code L' U' E' fs',
+  nblk cf b d L U E fs pos lc = Some (code, L', U', E', fs') -> depth_le d L ->
+  step_ok U E U' E' /\ fgrow fs fs' /\ flags_up L L'.
 Proof.
-  intros cf s Hs. pattern s. revert s Hs. apply stmt5u_ind.
+  intros cf b Hb L d U E fs pos lc code L' U' E' fs' Hc Hd. unfold nblk in Hc.
+  destruct (nlist cf b (S d) L U E fs pos lc) as [[[[[cb L1] U1] E1] fs1]|] eqn:El; [|discriminate]. cbv zeta in Hc. inversion Hc; subst.
+  destruct (Hb _ _ _ _ _ _ _ _ _ _ _ _ El (depth_le_S _ _ Hd)) as (A1 & A2 & (N & L0 & -> & F & D)).
+  split; [exact A1|]. split; [exact A2|].
+  rewrite (scope_end_len N L0 d (flags_up_depth_le _ _ _ F Hd) D), skipn_app_len. exact F.
+Qed.
+
+Lemma loop_locals_depth : forall d i L, depth_le d L ->
+  depth_le (S d) (mkLocal None (Some (S d)) false :: mkLocal (Some i) (Some (S d)) false :: L).
+Proof. intros d i L H. constructor; [cbn; lia|]. constructor; [cbn; lia|]. now apply depth_le_S. Qed.
+
+(* the two locals of a loop (variable, hidden iterator) are popped by its scope end *)
+Lemma loop_scope_end : forall d i L L1, depth_le d L ->
+  flags_up (mkLocal None (Some (S d)) false :: mkLocal (Some i) (Some (S d)) false :: L) L1 ->
+  exists lh li L0, L1 = lh :: li :: L0 /\ flags_up L L0 /\ l_name lh = None /\ l_depth lh = Some (S d) /\
+                   l_name li = Some i /\ l_depth li = Some (S d) /\
+                   scope_end_ops L1 d = [if l_capt lh then ICloseUpvalue else IPop; if l_capt li then ICloseUpvalue else IPop] /\
+                   skipn (List.length (scope_end_ops L1 d)) L1 = L0.
+Proof.
+  intros d i L L1 Hd HF. inversion HF as [|? lh ? L1' (A1 & A2 & _) HF1]; subst. inversion HF1 as [|? li ? L0 (B1 & B2 & _) HF0]; subst.
+  cbn in A1, A2, B1, B2. exists lh, li, L0.
+  assert (Hops : scope_end_ops (lh :: li :: L0) d = [if l_capt lh then ICloseUpvalue else IPop; if l_capt li then ICloseUpvalue else IPop]).
+  { cbn [scope_end_ops]. rewrite <- A2, <- B2. destruct (d <? S d) eqn:El; [|apply Nat.ltb_ge in El; lia].
+    pose proof (flags_up_depth_le _ _ _ HF0 Hd) as Hd0. destruct L0 as [|l0 L0']; [reflexivity|]. cbn [scope_end_ops].
+    inversion Hd0 as [|? ? Hl0 _]; subst. destruct (l_depth l0) as [d0|]; [|reflexivity].
+    destruct (d <? d0) eqn:E0; [apply Nat.ltb_lt in E0; lia|reflexivity]. }
+  repeat split; auto. rewrite Hops. reflexivity.
+Qed.
+
+Lemma nstmt_ok : forall cf s, stmt6u s = true -> nstmt_okP cf s.
+Proof.
+  intros cf s Hs. pattern s. revert s Hs. apply stmt6u_ind.
   - (* SDecl *)
-    intros x e He L d U E fs code L' U' E' fs' Hc Hd. cbn [nstmt] in Hc. destruct (d =? 0).
+    intros x e He L d U E fs pos lc code L' U' E' fs' Hc Hd. cbn [nstmt] in Hc. destruct (d =? 0).
     + destruct (nexpr cf L e U E) as [[[ce U1] E1]|] eqn:Ee; [|discriminate]. inversion Hc; subst.
       split; [eapply nexpr_ok; eauto|]. split; [apply fgrow_refl|apply lext_refl].
     + destruct (dup_in_scope L x d); [discriminate|]. destruct (List.length L =? c_locals_max cf); [discriminate|].
@@ -366,27 +467,27 @@ Proof.
       split; [eapply nexpr_ok; eauto|]. split; [apply fgrow_refl|].
       exists [mkLocal (Some x) (Some d) false], L. repeat split; [apply flags_up_refl|constructor; [reflexivity|constructor]].
   - (* SAssign *)
-    intros x e He L d U E fs code L' U' E' fs' Hc Hd. cbn [nstmt] in Hc.
+    intros x e He L d U E fs pos lc code L' U' E' fs' Hc Hd. cbn [nstmt] in Hc.
     destruct (rvn cf L U E x) as [[[r U0] E0]|] eqn:Er; [|discriminate].
     destruct (nexpr cf L e U0 E0) as [[[ce U1] E1]|] eqn:Ee; [|discriminate]. inversion Hc; subst.
     split; [eapply step_ok_trans; [eapply rvn_ok; eauto|eapply nexpr_ok; eauto]|]. split; [apply fgrow_refl|apply lext_refl].
-  - intros e He L d U E fs code L' U' E' fs' Hc Hd. cbn [nstmt] in Hc.
+  - intros e He L d U E fs pos lc code L' U' E' fs' Hc Hd. cbn [nstmt] in Hc.
     destruct (nexpr cf L e U E) as [[[ce U1] E1]|] eqn:Ee; [|discriminate]. inversion Hc; subst.
     split; [eapply nexpr_ok; eauto|]. split; [apply fgrow_refl|apply lext_refl].
-  - intros e He L d U E fs code L' U' E' fs' Hc Hd. cbn [nstmt] in Hc.
+  - intros e He L d U E fs pos lc code L' U' E' fs' Hc Hd. cbn [nstmt] in Hc.
     destruct (nexpr cf L e U E) as [[[ce U1] E1]|] eqn:Ee; [|discriminate]. inversion Hc; subst.
     split; [eapply nexpr_ok; eauto|]. split; [apply fgrow_refl|apply lext_refl].
-  - intros e He L d U E fs code L' U' E' fs' Hc Hd. cbn [nstmt] in Hc.
+  - intros e He L d U E fs pos lc code L' U' E' fs' Hc Hd. cbn [nstmt] in Hc.
     destruct (nexpr cf L e U E) as [[[ce U1] E1]|] eqn:Ee; [|discriminate]. inversion Hc; subst.
     split; [eapply nexpr_ok; eauto|]. split; [apply fgrow_refl|apply lext_refl].
   - (* SBlock *)
-    intros b Hb IH L d U E fs code L' U' E' fs' Hc Hd. rewrite nstmt_block in Hc.
-    destruct (nlist cf b (S d) L U E fs) as [[[[[cb L1] U1] E1] fs1]|] eqn:El; [|discriminate]. cbv zeta in Hc. inversion Hc; subst.
-    destruct (nlist_ok_aux cf b IH _ _ _ _ _ _ _ _ _ _ El (depth_le_S _ _ Hd)) as (A1 & A2 & (N & L0 & -> & F & D)).
+    intros b Hb IH L d U E fs pos lc code L' U' E' fs' Hc Hd. rewrite nstmt_block in Hc.
+    unfold nblk in Hc. destruct (nlist cf b (S d) L U E fs pos lc) as [[[[[cb L1] U1] E1] fs1]|] eqn:El; [|discriminate]. cbv zeta in Hc. inversion Hc; subst.
+    destruct (nlist_ok_aux cf b IH _ _ _ _ _ _ _ _ _ _ _ _ El (depth_le_S _ _ Hd)) as (A1 & A2 & (N & L0 & -> & F & D)).
     split; [exact A1|]. split; [exact A2|].
     rewrite (scope_end_len N L0 d (flags_up_depth_le _ _ _ F Hd) D), skipn_app_len. now apply lext_flags.
   - (* SFun *)
-    intros f ps b Hb IH L d U E fs code L' U' E' fs' Hc Hd. rewrite nstmt_fun in Hc. destruct (d =? 0).
+    intros f ps b Hb IH L d U E fs pos lc code L' U' E' fs' Hc Hd. rewrite nstmt_fun in Hc. destruct (d =? 0).
     + destruct (nfunc cf ps b L U E fs) as [[[[[ci L1] U1] E1] fs1]|] eqn:Ef; [|discriminate]. inversion Hc; subst.
       destruct (nfunc_ok_aux cf ps b (nlist_ok_aux cf b IH) _ _ _ _ _ _ _ _ _ Ef) as (A1 & A2 & A3).
       split; [exact A1|]. split; [exact A2|now apply lext_flags].
@@ -397,7 +498,7 @@ Proof.
       inversion A3 as [|l0 l0' ? L0 (E1' & E2' & _) F']; subst. cbn in E1', E2'.
       exists [l0'], L0. repeat split; [exact F'|constructor; [now rewrite <- E2'|constructor]].
   - (* SLam *)
-    intros x ps b Hb IH L d U E fs code L' U' E' fs' Hc Hd. rewrite nstmt_lam in Hc. destruct (d =? 0).
+    intros x ps b Hb IH L d U E fs pos lc code L' U' E' fs' Hc Hd. rewrite nstmt_lam in Hc. destruct (d =? 0).
     + destruct (nfunc cf ps b L U E fs) as [[[[[ci L1] U1] E1] fs1]|] eqn:Ef; [|discriminate]. inversion Hc; subst.
       destruct (nfunc_ok_aux cf ps b (nlist_ok_aux cf b IH) _ _ _ _ _ _ _ _ _ Ef) as (A1 & A2 & A3).
       split; [exact A1|]. split; [exact A2|now apply lext_flags].
@@ -408,16 +509,51 @@ Proof.
       split; [exact A1|]. split; [exact A2|].
       inversion A3 as [|? ? ? ? _ F']; subst.
       exists [mkLocal (Some x) (Some d) (l_capt l0)], L1. repeat split; [exact F'|constructor; [reflexivity|constructor]].
+  - (* SLoop *)
+    intros i n b Hb IH L d U E fs pos lc code L' U' E' fs' Hc Hd. rewrite nstmt_loop in Hc.
+    destruct (dup_in_scope L i (S d)); [discriminate|]. destruct (List.length L =? c_locals_max cf); [discriminate|].
+    destruct (S (List.length L) =? c_locals_max cf); [discriminate|]. cbv zeta in Hc.
+    destruct (nblk cf b (S d) _ U E fs _ (Some (mkLctx _ _ 0))) as [[[[[c0 L00] U00] E00] fs00]|]; [|discriminate].
+    destruct (nblk cf b (S d) _ U E fs _ (Some (mkLctx _ _ (_ + code_size c0 + 3 + 1)))) as [[[[[cblock L1] U1] E1] fs1]|] eqn:Eb; [|discriminate].
+    inversion Hc; subst.
+    destruct (nblk_ok_aux cf b (nlist_ok_aux cf b IH) _ _ _ _ _ _ _ _ _ _ _ _ Eb (loop_locals_depth d i L Hd)) as (A1 & A2 & A3).
+    destruct (loop_scope_end d i L L1 Hd A3) as (lh & li & L0 & -> & F0 & _ & _ & _ & _ & _ & Hsk).
+    split; [exact A1|]. split; [exact A2|]. rewrite Hsk. now apply lext_flags.
+  - (* SIf *)
+    intros a c t e Ha Hcx Ht He IHt IHe L d U E fs pos lc code L' U' E' fs' Hc Hd. rewrite nstmt_if in Hc.
+    destruct (nexpr cf L a U E) as [[[ca U1] E1]|] eqn:Ea; [|discriminate].
+    destruct (nexpr cf L c U1 E1) as [[[cc U2] E2]|] eqn:Ec; [|discriminate]. cbv zeta in Hc.
+    destruct (nblk cf t d L U2 E2 fs _ lc) as [[[[[ct L1] U3] E3] fs1]|] eqn:Et; [|discriminate].
+    destruct (nblk cf e d L1 U3 E3 fs1 _ lc) as [[[[[cel L2] U4] E4] fs2]|] eqn:Ee; [|discriminate]. inversion Hc; subst.
+    destruct (nblk_ok_aux cf t (nlist_ok_aux cf t IHt) _ _ _ _ _ _ _ _ _ _ _ _ Et Hd) as (A1 & A2 & A3).
+    destruct (nblk_ok_aux cf e (nlist_ok_aux cf e IHe) _ _ _ _ _ _ _ _ _ _ _ _ Ee (flags_up_depth_le _ _ _ A3 Hd)) as (B1 & B2 & B3).
+    split; [|split; [eapply fgrow_trans; eauto|apply lext_flags; eapply flags_up_trans; eauto]].
+    eapply step_ok_trans; [exact (nexpr_ok cf a Ha _ _ _ _ _ _ Ea)|]. eapply step_ok_trans; [exact (nexpr_ok cf c Hcx _ _ _ _ _ _ Ec)|]. eapply step_ok_trans; eauto.
+  - (* SBreak *)
+    intros L d U E fs pos lc code L' U' E' fs' Hc Hd. cbn [nstmt] in Hc. destruct lc; [|discriminate]. inversion Hc; subst.
+    split; [apply step_ok_refl|]. split; [apply fgrow_refl|apply lext_refl].
+  - (* SContinue *)
+    intros L d U E fs pos lc code L' U' E' fs' Hc Hd. cbn [nstmt] in Hc. destruct lc; [|discriminate]. inversion Hc; subst.
+    split; [apply step_ok_refl|]. split; [apply fgrow_refl|apply lext_refl].
 Qed.
 
-Lemma nlist_ok : forall cf b, forallb stmt5u b = true -> nlist_okP cf b.
+Lemma nblk_ok : forall cf b, forallb stmt6u b = true -> forall L d U E fs pos lc code L' U' E' fs',
+  nblk cf b d L U E fs pos lc = Some (code, L', U', E', fs') -> depth_le d L ->
+  step_ok U E U' E' /\ fgrow fs fs' /\ flags_up L L'.
+Proof.
+  intros cf b Hb. apply nblk_ok_aux. apply nlist_ok_aux. induction b as [|a r IH]; constructor.
+  - cbn in Hb. apply andb_prop in Hb as [Ha _]. now apply nstmt_ok.
+  - cbn in Hb. apply andb_prop in Hb as [_ Hr]. auto.
+Qed.
+
+Lemma nlist_ok : forall cf b, forallb stmt6u b = true -> nlist_okP cf b.
 Proof.
   intros cf b Hb. apply nlist_ok_aux. induction b as [|a r IH]; constructor.
   - cbn in Hb. apply andb_prop in Hb as [Ha _]. now apply nstmt_ok.
   - cbn in Hb. apply andb_prop in Hb as [_ Hr]. auto.
 Qed.
 
-Lemma nfunc_ok : forall cf ps b, forallb stmt5u b = true -> forall L1 U E fs ci L1' U' E' fs',
+Lemma nfunc_ok : forall cf ps b, forallb stmt6u b = true -> forall L1 U E fs ci L1' U' E' fs',
   nfunc cf ps b L1 U E fs = Some (ci, L1', U', E', fs') ->
   step_ok U E U' E' /\ fgrow fs fs' /\ flags_up L1 L1'.
 Proof. intros cf ps b Hb. apply nfunc_ok_aux. now apply nlist_ok. Qed.
@@ -547,17 +683,17 @@ Proof.
       eapply IHr; eauto.
 Qed.
 
-Definition nstmt_sokP (cf : cfg) (s : stmt) : Prop := forall L d U E fs code L' U' E' fs',
-  nstmt cf s L d U E fs = Some (code, L', U', E', fs') -> stack_ok U E -> stack_ok U' E'.
-Definition nlist_sokP (cf : cfg) (b : list stmt) : Prop := forall L d U E fs code L' U' E' fs',
-  nlist cf b d L U E fs = Some (code, L', U', E', fs') -> stack_ok U E -> stack_ok U' E'.
+Definition nstmt_sokP (cf : cfg) (s : stmt) : Prop := forall L d U E fs pos lc code L' U' E' fs',
+  nstmt cf s L d U E fs pos lc = Some (code, L', U', E', fs') -> stack_ok U E -> stack_ok U' E'.
+Definition nlist_sokP (cf : cfg) (b : list stmt) : Prop := forall L d U E fs pos lc code L' U' E' fs',
+  nlist cf b d L U E fs pos lc = Some (code, L', U', E', fs') -> stack_ok U E -> stack_ok U' E'.
 
 Lemma nlist_sok_aux : forall cf b, Forall (nstmt_sokP cf) b -> nlist_sokP cf b.
 Proof.
-  intros cf b H. induction H as [|a r Ha Hr IH]; intros L d U E fs code L' U' E' fs' Hc Hs; cbn [nlist] in Hc.
+  intros cf b H. induction H as [|a r Ha Hr IH]; intros L d U E fs pos lc code L' U' E' fs' Hc Hs; cbn [nlist] in Hc.
   - inversion Hc; subst. exact Hs.
-  - destruct (nstmt cf a L d U E fs) as [[[[[ca L1] U1] E1] fs1]|] eqn:E1'; [|discriminate].
-    destruct (nlist cf r d L1 U1 E1 fs1) as [[[[[cr L2] U2] E2] fs2]|] eqn:E2'; [|discriminate]. inversion Hc; subst.
+  - destruct (nstmt cf a L d U E fs pos lc) as [[[[[ca L1] U1] E1] fs1]|] eqn:E1'; [|discriminate].
+    destruct (nlist cf r d L1 U1 E1 fs1 (pos + code_size ca) lc) as [[[[[cr L2] U2] E2] fs2]|] eqn:E2'; [|discriminate]. inversion Hc; subst.
     eapply IH; eauto.
 Qed.
 
@@ -566,48 +702,74 @@ Lemma nfunc_sok_aux : forall cf ps b, nlist_sokP cf b -> forall L1 U E fs ci L1'
 Proof.
   intros cf ps b Hb L1 U E fs ci L1' U' E' fs' H Hs. unfold nfunc in H.
   destruct (bparams cf ps _) as [Lp|] eqn:Ep; [|discriminate].
-  destruct (nlist cf b 1 Lp [] (mkLev L1 U :: E) fs) as [[[[[cb Lb'] Ub] Eo] fs1]|] eqn:El; [|discriminate].
+  destruct (nlist cf b 1 Lp [] (mkLev L1 U :: E) fs 0 None) as [[[[[cb Lb'] Ub] Eo] fs1]|] eqn:El; [|discriminate].
   cbn [nclose] in H. destruct Eo as [|lv E0]; [discriminate|]. inversion H; subst.
   assert (H0 : stack_ok [] (mkLev L1 U :: E)) by (split; [constructor|exact Hs]).
-  destruct (Hb _ _ _ _ _ _ _ _ _ _ El H0) as [_ A]. exact A.
+  destruct (Hb _ _ _ _ _ _ _ _ _ _ _ _ El H0) as [_ A]. exact A.
 Qed.
 
-Lemma nstmt_stack_ok : forall cf s, stmt5u s = true -> nstmt_sokP cf s.
+Lemma nblk_sok_aux : forall cf b, nlist_sokP cf b -> forall L d U E fs pos lc code L' U' E' fs',
+  nblk cf b d L U E fs pos lc = Some (code, L', U', E', fs') -> stack_ok U E -> stack_ok U' E'.
 Proof.
-  intros cf s Hs. pattern s. revert s Hs. apply stmt5u_ind.
-  - intros x e He L d U E fs code L' U' E' fs' Hc. cbn [nstmt] in Hc. destruct (d =? 0).
+  intros cf b Hb L d U E fs pos lc code L' U' E' fs' Hc. unfold nblk in Hc.
+  destruct (nlist cf b (S d) L U E fs pos lc) as [[[[[cb L1] U1] E1] fs1]|] eqn:El; [|discriminate]. cbv zeta in Hc. inversion Hc; subst.
+  eapply Hb; eauto.
+Qed.
+
+Lemma nstmt_stack_ok : forall cf s, stmt6u s = true -> nstmt_sokP cf s.
+Proof.
+  intros cf s Hs. pattern s. revert s Hs. apply stmt6u_ind.
+  - intros x e He L d U E fs pos lc code L' U' E' fs' Hc. cbn [nstmt] in Hc. destruct (d =? 0).
     + destruct (nexpr cf L e U E) as [[[ce U1] E1]|] eqn:Ee; [|discriminate]. inversion Hc; subst. eapply nexpr_stack_ok; eauto.
     + destruct (dup_in_scope L x d); [discriminate|]. destruct (List.length L =? c_locals_max cf); [discriminate|].
       destruct (nexpr cf _ e U E) as [[[ce U1] E1]|] eqn:Ee; [|discriminate]. inversion Hc; subst. eapply nexpr_stack_ok; eauto.
-  - intros x e He L d U E fs code L' U' E' fs' Hc. cbn [nstmt] in Hc.
+  - intros x e He L d U E fs pos lc code L' U' E' fs' Hc. cbn [nstmt] in Hc.
     destruct (rvn cf L U E x) as [[[r U0] E0]|] eqn:Er; [|discriminate].
     destruct (nexpr cf L e U0 E0) as [[[ce U1] E1]|] eqn:Ee; [|discriminate]. inversion Hc; subst.
     intros H. eapply nexpr_stack_ok; eauto. eapply rvn_stack_ok; eauto.
-  - intros e He L d U E fs code L' U' E' fs' Hc. cbn [nstmt] in Hc.
+  - intros e He L d U E fs pos lc code L' U' E' fs' Hc. cbn [nstmt] in Hc.
     destruct (nexpr cf L e U E) as [[[ce U1] E1]|] eqn:Ee; [|discriminate]. inversion Hc; subst. eapply nexpr_stack_ok; eauto.
-  - intros e He L d U E fs code L' U' E' fs' Hc. cbn [nstmt] in Hc.
+  - intros e He L d U E fs pos lc code L' U' E' fs' Hc. cbn [nstmt] in Hc.
     destruct (nexpr cf L e U E) as [[[ce U1] E1]|] eqn:Ee; [|discriminate]. inversion Hc; subst. eapply nexpr_stack_ok; eauto.
-  - intros e He L d U E fs code L' U' E' fs' Hc. cbn [nstmt] in Hc.
+  - intros e He L d U E fs pos lc code L' U' E' fs' Hc. cbn [nstmt] in Hc.
     destruct (nexpr cf L e U E) as [[[ce U1] E1]|] eqn:Ee; [|discriminate]. inversion Hc; subst. eapply nexpr_stack_ok; eauto.
-  - intros b Hb IH L d U E fs code L' U' E' fs' Hc. rewrite nstmt_block in Hc.
-    destruct (nlist cf b (S d) L U E fs) as [[[[[cb L1] U1] E1] fs1]|] eqn:El; [|discriminate]. cbv zeta in Hc. inversion Hc; subst.
+  - intros b Hb IH L d U E fs pos lc code L' U' E' fs' Hc. rewrite nstmt_block in Hc.
+    unfold nblk in Hc. destruct (nlist cf b (S d) L U E fs pos lc) as [[[[[cb L1] U1] E1] fs1]|] eqn:El; [|discriminate]. cbv zeta in Hc. inversion Hc; subst.
     eapply (nlist_sok_aux cf b IH); eauto.
-  - intros f ps b Hb IH L d U E fs code L' U' E' fs' Hc. rewrite nstmt_fun in Hc. destruct (d =? 0).
+  - intros f ps b Hb IH L d U E fs pos lc code L' U' E' fs' Hc. rewrite nstmt_fun in Hc. destruct (d =? 0).
     + destruct (nfunc cf ps b L U E fs) as [[[[[ci L1] U1] E1] fs1]|] eqn:Ef; [|discriminate]. inversion Hc; subst.
       eapply (nfunc_sok_aux cf ps b (nlist_sok_aux cf b IH)); eauto.
     + destruct (dup_in_scope L f d); [discriminate|]. destruct (List.length L =? c_locals_max cf); [discriminate|].
       destruct (nfunc cf ps b _ U E fs) as [[[[[ci L1] U1] E1] fs1]|] eqn:Ef; [|discriminate]. inversion Hc; subst.
       eapply (nfunc_sok_aux cf ps b (nlist_sok_aux cf b IH)); eauto.
-  - intros x ps b Hb IH L d U E fs code L' U' E' fs' Hc. rewrite nstmt_lam in Hc. destruct (d =? 0).
+  - intros x ps b Hb IH L d U E fs pos lc code L' U' E' fs' Hc. rewrite nstmt_lam in Hc. destruct (d =? 0).
     + destruct (nfunc cf ps b L U E fs) as [[[[[ci L1] U1] E1] fs1]|] eqn:Ef; [|discriminate]. inversion Hc; subst.
       eapply (nfunc_sok_aux cf ps b (nlist_sok_aux cf b IH)); eauto.
     + destruct (dup_in_scope L x d); [discriminate|]. destruct (List.length L =? c_locals_max cf); [discriminate|].
       destruct (nfunc cf ps b _ U E fs) as [[[[[ci L1] U1] E1] fs1]|] eqn:Ef; [|discriminate].
       destruct L1 as [|l0 L1]; [discriminate|]. inversion Hc; subst.
       eapply (nfunc_sok_aux cf ps b (nlist_sok_aux cf b IH)); eauto.
+  - (* SLoop *)
+    intros i n b Hb IH L d U E fs pos lc code L' U' E' fs' Hc. rewrite nstmt_loop in Hc.
+    destruct (dup_in_scope L i (S d)); [discriminate|]. destruct (List.length L =? c_locals_max cf); [discriminate|].
+    destruct (S (List.length L) =? c_locals_max cf); [discriminate|]. cbv zeta in Hc.
+    destruct (nblk cf b (S d) _ U E fs _ (Some (mkLctx _ _ 0))) as [[[[[c0 L00] U00] E00] fs00]|]; [|discriminate].
+    destruct (nblk cf b (S d) _ U E fs _ (Some (mkLctx _ _ (_ + code_size c0 + 3 + 1)))) as [[[[[cblock L1] U1] E1] fs1]|] eqn:Eb; [|discriminate].
+    inversion Hc; subst. eapply (nblk_sok_aux cf b (nlist_sok_aux cf b IH)); eauto.
+  - (* SIf *)
+    intros a c t e Ha Hcx Ht He IHt IHe L d U E fs pos lc code L' U' E' fs' Hc. rewrite nstmt_if in Hc.
+    destruct (nexpr cf L a U E) as [[[ca U1] E1]|] eqn:Ea; [|discriminate].
+    destruct (nexpr cf L c U1 E1) as [[[cc U2] E2]|] eqn:Ec; [|discriminate]. cbv zeta in Hc.
+    destruct (nblk cf t d L U2 E2 fs _ lc) as [[[[[ct L1] U3] E3] fs1]|] eqn:Et; [|discriminate].
+    destruct (nblk cf e d L1 U3 E3 fs1 _ lc) as [[[[[cel L2] U4] E4] fs2]|] eqn:Ee; [|discriminate]. inversion Hc; subst.
+    intros H. apply (nexpr_stack_ok cf a Ha _ _ _ _ _ _ Ea) in H. apply (nexpr_stack_ok cf c Hcx _ _ _ _ _ _ Ec) in H.
+    apply (nblk_sok_aux cf t (nlist_sok_aux cf t IHt) _ _ _ _ _ _ _ _ _ _ _ _ Et) in H.
+    exact (nblk_sok_aux cf e (nlist_sok_aux cf e IHe) _ _ _ _ _ _ _ _ _ _ _ _ Ee H).
+  - intros L d U E fs pos lc code L' U' E' fs' Hc. cbn [nstmt] in Hc. destruct lc; [|discriminate]. inversion Hc; subst. auto.
+  - intros L d U E fs pos lc code L' U' E' fs' Hc. cbn [nstmt] in Hc. destruct lc; [|discriminate]. inversion Hc; subst. auto.
 Qed.
 
-Lemma nlist_stack_ok : forall cf b, forallb stmt5u b = true -> nlist_sokP cf b.
+Lemma nlist_stack_ok : forall cf b, forallb stmt6u b = true -> nlist_sokP cf b.
 Proof.
   intros cf b Hb. apply nlist_sok_aux. induction b as [|a r IH]; constructor.
   - cbn in Hb. apply andb_prop in Hb as [Ha _]. now apply nstmt_stack_ok.
@@ -756,24 +918,34 @@ Proof.
 Qed.
 
 Definition nstmt_dropP (cf : cfg) (x : name) (l0 : local) (s : stmt) : Prop :=
-  s_mentionsN x s = false -> forall L d E k U fs code L' U' E' fs', topk k E = Some l0 ->
-  nstmt cf s L d U E fs = Some (code, L', U', E', fs') ->
-  nstmt cf s L d U (dropk k E) fs = Some (code, L', U', dropk k E', fs') /\ topk k E' = Some l0.
+  s_mentionsN x s = false -> forall L d E k U fs pos lc code L' U' E' fs', topk k E = Some l0 ->
+  nstmt cf s L d U E fs pos lc = Some (code, L', U', E', fs') ->
+  nstmt cf s L d U (dropk k E) fs pos lc = Some (code, L', U', dropk k E', fs') /\ topk k E' = Some l0.
 
 Definition nlist_dropP (cf : cfg) (x : name) (l0 : local) (b : list stmt) : Prop :=
-  existsb (s_mentionsN x) b = false -> forall L d E k U fs code L' U' E' fs', topk k E = Some l0 ->
-  nlist cf b d L U E fs = Some (code, L', U', E', fs') ->
-  nlist cf b d L U (dropk k E) fs = Some (code, L', U', dropk k E', fs') /\ topk k E' = Some l0.
+  existsb (s_mentionsN x) b = false -> forall L d E k U fs pos lc code L' U' E' fs', topk k E = Some l0 ->
+  nlist cf b d L U E fs pos lc = Some (code, L', U', E', fs') ->
+  nlist cf b d L U (dropk k E) fs pos lc = Some (code, L', U', dropk k E', fs') /\ topk k E' = Some l0.
 
 Lemma nlist_drop_aux : forall cf x l0 b, Forall (nstmt_dropP cf x l0) b -> nlist_dropP cf x l0 b.
 Proof.
-  intros cf x l0 b H. induction H as [|a r Ha Hr IH]; intros Hm L d E k U fs code L' U' E' fs' Ht Hc; cbn [nlist] in *.
+  intros cf x l0 b H. induction H as [|a r Ha Hr IH]; intros Hm L d E k U fs pos lc code L' U' E' fs' Ht Hc; cbn [nlist] in *.
   - inversion Hc; subst. auto.
   - cbn [existsb] in Hm. apply orb_false_elim in Hm as [Hm1 Hm2].
-    destruct (nstmt cf a L d U E fs) as [[[[[ca L1] U1] E1] fs1]|] eqn:E1'; [|discriminate].
-    destruct (Ha Hm1 _ _ _ _ _ _ _ _ _ _ _ Ht E1') as [A1 B1]. rewrite A1.
-    destruct (nlist cf r d L1 U1 E1 fs1) as [[[[[cr L2] U2] E2] fs2]|] eqn:E2'; [|discriminate].
-    destruct (IH Hm2 _ _ _ _ _ _ _ _ _ _ _ B1 E2') as [A2 B2]. rewrite A2. inversion Hc; subst. auto.
+    destruct (nstmt cf a L d U E fs pos lc) as [[[[[ca L1] U1] E1] fs1]|] eqn:E1'; [|discriminate].
+    destruct (Ha Hm1 _ _ _ _ _ _ _ _ _ _ _ _ _ Ht E1') as [A1 B1]. rewrite A1.
+    destruct (nlist cf r d L1 U1 E1 fs1 (pos + code_size ca) lc) as [[[[[cr L2] U2] E2] fs2]|] eqn:E2'; [|discriminate].
+    destruct (IH Hm2 _ _ _ _ _ _ _ _ _ _ _ _ _ B1 E2') as [A2 B2]. rewrite A2. inversion Hc; subst. auto.
+Qed.
+
+Lemma nblk_drop_aux : forall cf x l0 b, nlist_dropP cf x l0 b -> existsb (s_mentionsN x) b = false ->
+  forall L d E k U fs pos lc code L' U' E' fs', topk k E = Some l0 ->
+  nblk cf b d L U E fs pos lc = Some (code, L', U', E', fs') ->
+  nblk cf b d L U (dropk k E) fs pos lc = Some (code, L', U', dropk k E', fs') /\ topk k E' = Some l0.
+Proof.
+  intros cf x l0 b Hb Hm L d E k U fs pos lc code L' U' E' fs' Ht Hc. unfold nblk in *.
+  destruct (nlist cf b (S d) L U E fs pos lc) as [[[[[cb L1] U1] E1] fs1]|] eqn:El; [|discriminate].
+  destruct (Hb Hm _ _ _ _ _ _ _ _ _ _ _ _ _ Ht El) as [A B]. rewrite A. cbv zeta in *. inversion Hc; subst. auto.
 Qed.
 
 Lemma nfunc_drop_aux : forall cf x l0 ps b, nlist_dropP cf x l0 b -> existsb (s_mentionsN x) b = false ->
@@ -783,17 +955,17 @@ Lemma nfunc_drop_aux : forall cf x l0 ps b, nlist_dropP cf x l0 b -> existsb (s_
 Proof.
   intros cf x l0 ps b Hb Hm L1 E k U fs ci L1' U' E' fs' Ht H. unfold nfunc in *.
   destruct (bparams cf ps _) as [Lp|]; [|discriminate].
-  destruct (nlist cf b 1 Lp [] (mkLev L1 U :: E) fs) as [[[[[cb Lb'] Ub] Eo] fs1]|] eqn:El; [|discriminate].
+  destruct (nlist cf b 1 Lp [] (mkLev L1 U :: E) fs 0 None) as [[[[[cb Lb'] Ub] Eo] fs1]|] eqn:El; [|discriminate].
   assert (Ht' : topk (S k) (mkLev L1 U :: E) = Some l0) by exact Ht.
-  destruct (Hb Hm _ _ _ (S k) _ _ _ _ _ _ _ Ht' El) as [A B]. cbn [dropk] in A. rewrite A.
+  destruct (Hb Hm _ _ _ (S k) _ _ _ _ _ _ _ _ _ Ht' El) as [A B]. cbn [dropk] in A. rewrite A.
   cbn [nclose] in *. destruct Eo as [|lv E0]; [discriminate|]. cbn [dropk]. inversion H; subst. split; [reflexivity|exact B].
 Qed.
 
-Lemma nstmt_drop : forall cf x l0, l_name l0 = Some x -> forall s, stmt5u s = true -> nstmt_dropP cf x l0 s.
+Lemma nstmt_drop : forall cf x l0, l_name l0 = Some x -> forall s, stmt6u s = true -> nstmt_dropP cf x l0 s.
 Proof.
-  intros cf x l0 Hn s Hs. pattern s. revert s Hs. apply stmt5u_ind.
+  intros cf x l0 Hn s Hs. pattern s. revert s Hs. apply stmt6u_ind.
   - (* SDecl *)
-    intros y e He Hm L d E k U fs code L' U' E' fs' Ht Hc. cbn [nstmt s_mentionsN] in *. apply orb_false_elim in Hm as [_ Hm].
+    intros y e He Hm L d E k U fs pos lc code L' U' E' fs' Ht Hc. cbn [nstmt s_mentionsN] in *. apply orb_false_elim in Hm as [_ Hm].
     destruct (d =? 0).
     + destruct (nexpr cf L e U E) as [[[ce U1] E1]|] eqn:Ee; [|discriminate].
       destruct (nexpr_drop cf x l0 Hn e He Hm _ _ _ _ _ _ _ Ht Ee) as [A B]. rewrite A. inversion Hc; subst. auto.
@@ -801,27 +973,26 @@ Proof.
       destruct (nexpr cf _ e U E) as [[[ce U1] E1]|] eqn:Ee; [|discriminate].
       destruct (nexpr_drop cf x l0 Hn e He Hm _ _ _ _ _ _ _ Ht Ee) as [A B]. rewrite A. inversion Hc; subst. auto.
   - (* SAssign *)
-    intros y e He Hm L d E k U fs code L' U' E' fs' Ht Hc. cbn [nstmt s_mentionsN] in *. apply orb_false_elim in Hm as [Hmy Hm].
+    intros y e He Hm L d E k U fs pos lc code L' U' E' fs' Ht Hc. cbn [nstmt s_mentionsN] in *. apply orb_false_elim in Hm as [Hmy Hm].
     apply Nat.eqb_neq in Hmy.
     destruct (rvn cf L U E y) as [[[r U0] E0]|] eqn:Er; [|discriminate].
     destruct (rvn_drop cf x y l0 Hn Hmy _ _ _ _ _ _ _ Ht Er) as [A0 B0]. rewrite A0.
     destruct (nexpr cf L e U0 E0) as [[[ce U1] E1]|] eqn:Ee; [|discriminate].
     destruct (nexpr_drop cf x l0 Hn e He Hm _ _ _ _ _ _ _ B0 Ee) as [A B]. rewrite A. inversion Hc; subst. auto.
-  - intros e He Hm L d E k U fs code L' U' E' fs' Ht Hc. cbn [nstmt s_mentionsN] in *.
+  - intros e He Hm L d E k U fs pos lc code L' U' E' fs' Ht Hc. cbn [nstmt s_mentionsN] in *.
     destruct (nexpr cf L e U E) as [[[ce U1] E1]|] eqn:Ee; [|discriminate].
     destruct (nexpr_drop cf x l0 Hn e He Hm _ _ _ _ _ _ _ Ht Ee) as [A B]. rewrite A. inversion Hc; subst. auto.
-  - intros e He Hm L d E k U fs code L' U' E' fs' Ht Hc. cbn [nstmt s_mentionsN] in *.
+  - intros e He Hm L d E k U fs pos lc code L' U' E' fs' Ht Hc. cbn [nstmt s_mentionsN] in *.
     destruct (nexpr cf L e U E) as [[[ce U1] E1]|] eqn:Ee; [|discriminate].
     destruct (nexpr_drop cf x l0 Hn e He Hm _ _ _ _ _ _ _ Ht Ee) as [A B]. rewrite A. inversion Hc; subst. auto.
-  - intros e He Hm L d E k U fs code L' U' E' fs' Ht Hc. cbn [nstmt s_mentionsN] in *.
+  - intros e He Hm L d E k U fs pos lc code L' U' E' fs' Ht Hc. cbn [nstmt s_mentionsN] in *.
     destruct (nexpr cf L e U E) as [[[ce U1] E1]|] eqn:Ee; [|discriminate].
     destruct (nexpr_drop cf x l0 Hn e He Hm _ _ _ _ _ _ _ Ht Ee) as [A B]. rewrite A. inversion Hc; subst. auto.
   - (* SBlock *)
-    intros b Hb IH Hm L d E k U fs code L' U' E' fs' Ht Hc. rewrite !nstmt_block in *. cbn [s_mentionsN] in Hm.
-    destruct (nlist cf b (S d) L U E fs) as [[[[[cb L1] U1] E1] fs1]|] eqn:El; [|discriminate].
-    destruct (nlist_drop_aux cf x l0 b IH Hm _ _ _ _ _ _ _ _ _ _ _ Ht El) as [A B]. rewrite A. cbv zeta in *. inversion Hc; subst. auto.
+    intros b Hb IH Hm L d E k U fs pos lc code L' U' E' fs' Ht Hc. rewrite !nstmt_block in *. cbn [s_mentionsN] in Hm.
+    exact (nblk_drop_aux cf x l0 b (nlist_drop_aux cf x l0 b IH) Hm _ _ _ _ _ _ _ _ _ _ _ _ _ Ht Hc).
   - (* SFun *)
-    intros f ps b Hb IH Hm L d E k U fs code L' U' E' fs' Ht Hc. rewrite !nstmt_fun in *. cbn [s_mentionsN] in Hm.
+    intros f ps b Hb IH Hm L d E k U fs pos lc code L' U' E' fs' Ht Hc. rewrite !nstmt_fun in *. cbn [s_mentionsN] in Hm.
     apply orb_false_elim in Hm as [_ Hm]. destruct (d =? 0).
     + destruct (nfunc cf ps b L U E fs) as [[[[[ci L1] U1] E1] fs1]|] eqn:Ef; [|discriminate].
       destruct (nfunc_drop_aux cf x l0 ps b (nlist_drop_aux cf x l0 b IH) Hm _ _ _ _ _ _ _ _ _ _ Ht Ef) as [A B]. rewrite A.
@@ -831,7 +1002,7 @@ Proof.
       destruct (nfunc_drop_aux cf x l0 ps b (nlist_drop_aux cf x l0 b IH) Hm _ _ _ _ _ _ _ _ _ _ Ht Ef) as [A B]. rewrite A.
       inversion Hc; subst. auto.
   - (* SLam *)
-    intros y ps b Hb IH Hm L d E k U fs code L' U' E' fs' Ht Hc. rewrite !nstmt_lam in *. cbn [s_mentionsN] in Hm.
+    intros y ps b Hb IH Hm L d E k U fs pos lc code L' U' E' fs' Ht Hc. rewrite !nstmt_lam in *. cbn [s_mentionsN] in Hm.
     apply orb_false_elim in Hm as [_ Hm]. destruct (d =? 0).
     + destruct (nfunc cf ps b L U E fs) as [[[[[ci L1] U1] E1] fs1]|] eqn:Ef; [|discriminate].
       destruct (nfunc_drop_aux cf x l0 ps b (nlist_drop_aux cf x l0 b IH) Hm _ _ _ _ _ _ _ _ _ _ Ht Ef) as [A B]. rewrite A.
@@ -840,9 +1011,33 @@ Proof.
       destruct (nfunc cf ps b _ U E fs) as [[[[[ci L1] U1] E1] fs1]|] eqn:Ef; [|discriminate].
       destruct (nfunc_drop_aux cf x l0 ps b (nlist_drop_aux cf x l0 b IH) Hm _ _ _ _ _ _ _ _ _ _ Ht Ef) as [A B]. rewrite A.
       destruct L1 as [|l1 L1]; [discriminate|]. inversion Hc; subst. auto.
+  - (* SLoop *)
+    intros i n b Hb IH Hm L d E k U fs pos lc code L' U' E' fs' Ht Hc. rewrite !nstmt_loop in *. cbn [s_mentionsN] in Hm.
+    apply orb_false_elim in Hm as [_ Hm].
+    destruct (dup_in_scope L i (S d)); [discriminate|]. destruct (List.length L =? c_locals_max cf); [discriminate|].
+    destruct (S (List.length L) =? c_locals_max cf); [discriminate|]. cbv zeta in *.
+    destruct (nblk cf b (S d) _ U E fs _ (Some (mkLctx _ _ 0))) as [[[[[c0 L00] U00] E00] fs00]|] eqn:Eb0; [|discriminate].
+    destruct (nblk_drop_aux cf x l0 b (nlist_drop_aux cf x l0 b IH) Hm _ _ _ _ _ _ _ _ _ _ _ _ _ Ht Eb0) as [A0 _]. rewrite A0.
+    destruct (nblk cf b (S d) _ U E fs _ (Some (mkLctx _ _ (_ + code_size c0 + 3 + 1)))) as [[[[[cblock L1] U1] E1] fs1]|] eqn:Eb; [|discriminate].
+    destruct (nblk_drop_aux cf x l0 b (nlist_drop_aux cf x l0 b IH) Hm _ _ _ _ _ _ _ _ _ _ _ _ _ Ht Eb) as [A1 B1]. rewrite A1.
+    inversion Hc; subst. auto.
+  - (* SIf *)
+    intros a c t e Ha Hcx Hft Hfe IHt IHe Hm L d E k U fs pos lc code L' U' E' fs' Ht Hc. rewrite !nstmt_if in *. cbn [s_mentionsN] in Hm.
+    apply orb_false_elim in Hm as [Hm Hme]. apply orb_false_elim in Hm as [Hm Hmt]. apply orb_false_elim in Hm as [Hma Hmc].
+    destruct (nexpr cf L a U E) as [[[ca U1] E1]|] eqn:Ea; [|discriminate].
+    destruct (nexpr_drop cf x l0 Hn a Ha Hma _ _ _ _ _ _ _ Ht Ea) as [A1 B1]. rewrite A1.
+    destruct (nexpr cf L c U1 E1) as [[[cc U2] E2]|] eqn:Ec; [|discriminate].
+    destruct (nexpr_drop cf x l0 Hn c Hcx Hmc _ _ _ _ _ _ _ B1 Ec) as [A2 B2]. rewrite A2. cbv zeta in *.
+    destruct (nblk cf t d L U2 E2 fs _ lc) as [[[[[ct L1] U3] E3] fs1]|] eqn:Et; [|discriminate].
+    destruct (nblk_drop_aux cf x l0 t (nlist_drop_aux cf x l0 t IHt) Hmt _ _ _ _ _ _ _ _ _ _ _ _ _ B2 Et) as [A3 B3]. rewrite A3.
+    destruct (nblk cf e d L1 U3 E3 fs1 _ lc) as [[[[[cel L2] U4] E4] fs2]|] eqn:Ee; [|discriminate].
+    destruct (nblk_drop_aux cf x l0 e (nlist_drop_aux cf x l0 e IHe) Hme _ _ _ _ _ _ _ _ _ _ _ _ _ B3 Ee) as [A4 B4]. rewrite A4.
+    inversion Hc; subst. auto.
+  - intros _ L d E k U fs pos lc code L' U' E' fs' Ht Hc. cbn [nstmt] in *. destruct lc; [|discriminate]. inversion Hc; subst. auto.
+  - intros _ L d E k U fs pos lc code L' U' E' fs' Ht Hc. cbn [nstmt] in *. destruct lc; [|discriminate]. inversion Hc; subst. auto.
 Qed.
 
-Lemma nlist_drop : forall cf x l0, l_name l0 = Some x -> forall b, forallb stmt5u b = true -> nlist_dropP cf x l0 b.
+Lemma nlist_drop : forall cf x l0, l_name l0 = Some x -> forall b, forallb stmt6u b = true -> nlist_dropP cf x l0 b.
 Proof.
   intros cf x l0 Hn b Hb. apply nlist_drop_aux. induction b as [|a r IH]; constructor.
   - cbn in Hb. apply andb_prop in Hb as [Ha _]. now apply nstmt_drop.
@@ -850,15 +1045,15 @@ Proof.
 Qed.
 
 (* the form used for `var x = |ps| { b };` below the top level *)
-Lemma nfunc_drop0 : forall cf x ps b L U E fs ci L1' U' E' fs', forallb stmt5u b = true -> existsb (s_mentionsN x) b = false ->
+Lemma nfunc_drop0 : forall cf x ps b L U E fs ci L1' U' E' fs', forallb stmt6u b = true -> existsb (s_mentionsN x) b = false ->
   nfunc cf ps b (mkLocal (Some x) None false :: L) U E fs = Some (ci, L1', U', E', fs') ->
   exists L', L1' = mkLocal (Some x) None false :: L' /\ nfunc cf ps b L U E fs = Some (ci, L', U', E', fs').
 Proof.
   intros cf x ps b L U E fs ci L1' U' E' fs' Hb Hm H. unfold nfunc in *.
   destruct (bparams cf ps _) as [Lp|]; [|discriminate].
-  destruct (nlist cf b 1 Lp [] (mkLev (mkLocal (Some x) None false :: L) U :: E) fs) as [[[[[cb Lb'] Ub] Eo] fs1]|] eqn:El; [|discriminate].
+  destruct (nlist cf b 1 Lp [] (mkLev (mkLocal (Some x) None false :: L) U :: E) fs 0 None) as [[[[[cb Lb'] Ub] Eo] fs1]|] eqn:El; [|discriminate].
   assert (Ht : topk 0 (mkLev (mkLocal (Some x) None false :: L) U :: E) = Some (mkLocal (Some x) None false)) by reflexivity.
-  destruct (nlist_drop cf x (mkLocal (Some x) None false) eq_refl b Hb Hm _ _ _ 0 _ _ _ _ _ _ _ Ht El) as [A B].
+  destruct (nlist_drop cf x (mkLocal (Some x) None false) eq_refl b Hb Hm _ _ _ 0 _ _ _ _ _ _ _ _ _ Ht El) as [A B].
   cbn [dropk lv_locals lv_ups tl] in A. rewrite A.
   cbn [nclose] in *. destruct Eo as [|[Lv Uv] E0]; [discriminate|]. unfold topk in B. cbn in B.
   destruct Lv as [|l1 Lv]; [discriminate|]. cbn in B. inversion B; subst l1. cbn [dropk lv_locals lv_ups tl]. inversion H; subst.
